@@ -99,7 +99,7 @@ def main(argv):
 
     # the quick tier is meant to run on every change: it gives its answer within QUICK_BUDGET seconds
     # (a job that cannot finish in what is left is reported as undecided, never as a violation)
-    deadline = (t0 + int(os.environ.get('VERIF_QUICK_BUDGET', '840'))) if a.tier == 'quick' else None
+    deadline = (t0 + int(os.environ.get('VERIF_QUICK_BUDGET', '780'))) if a.tier == 'quick' else None
 
     def guarded(job, *args):
         import copy
@@ -190,6 +190,29 @@ def main(argv):
         print('VIOLATION property=%s replay=%s%s' % (pid, rp['path'], tail))
         vio_ev.append(dict(job=jn, obligations=[o['name'] for o in obs], descriptions=[o['description'][:300] for o in obs], replay=rp['path'], replayed=rp['replayed']))
         nviol += 1
+    # A job the verifier could not decide (tool error on changed code, e.g. a new loop without contract; timeout) is never
+    # reported as a violation by itself.  But silence is not an answer either: the replay oracle (real code, guard off, against
+    # the same specification macros) is run over its search space for the function of that job, and a concrete input on which
+    # code and specification disagree is reported - it IS a failing input replayed against the real code.  This fallback is
+    # differential testing, not deductive verification, and is labelled as such in the replay file and the evidence.
+    still_undecided = []
+    for jn, why in undecided:
+        rp = None
+        try:
+            from . import replay, finders
+            if jn in finders.KIND and jn in results:
+                rp = replay.make_replay_undecided(pid, jn, why, results[jn], work)
+        except Exception as e:
+            rp = None
+        if rp and rp['replayed']:
+            print('UNDECIDED-BY-VERIFIER job=%s reason=%s' % (jn, why.replace('\n', ' ')[:300]))
+            print('FAILED-REPLAY job=%s the replay oracle found an input on which the real code and the specification disagree (search, not proof): %s' % (jn, rp.get('input_text', '')))
+            print('VIOLATION property=%s replay=%s' % (pid, rp['path']))
+            vio_ev.append(dict(job=jn, obligations=[], descriptions=['verifier undecided (%s); concrete disagreement found by the replay oracle search' % why[:200]], replay=rp['path'], replayed=True))
+            nviol += 1
+        else:
+            still_undecided.append((jn, why))
+    undecided = still_undecided
     for jn, why in undecided:
         print('UNDECIDED job=%s reason=%s' % (jn, why.replace('\n', ' ')[:600]))
     wall = time.time() - t0
